@@ -567,6 +567,7 @@ func RunBatch(opt Options) int {
 	knownWhat := map[string]*Finding{}
 	stoppedEarly := false
 
+	dumpStates := os.Getenv("VISIM_DUMP_STATES") != "" // debugging aid for the distinct-states measure
 	hangSecs := ch.HangSeconds
 	if hangSecs == 0 {
 		hangSecs = 30
@@ -601,6 +602,9 @@ func RunBatch(opt Options) int {
 					infraErr.Store(infra)
 					atomic.StoreInt32(&stop, 1)
 					return
+				}
+				if dumpStates {
+					fmt.Fprintf(os.Stderr, "STATES %d %x\n", i, out.States)
 				}
 				a.mu.Lock()
 				a.evals++
